@@ -57,19 +57,20 @@ PROPS = {
     },
     "C11": {
         "x": ["harness.hC11"],
-        "extra": ["harness.pC11.run"],
+        "extra": ["harness.pC11.run", "harness.pC11.fresh_processes"],
         "level": "other",
         "explanation": "The history quantifier is attacked by making the state that survives between calls arbitrary and "
                        "doing one step (Engine X): compile() on a reused compiler whose attributes hold symbolic stale "
                        "values, convert() with symbolic stale writer state / class-level lists / parameter indent fields, "
                        "no mutation of the caller's routine lists, and the CLI reader's numbering after arbitrary earlier "
                        "reads; each must equal the result of a fresh object. ANTLR and igraph run concretely underneath. "
-                       "Concrete two-order histories in one process validate the inventory (model validation).",
+                       "Concrete two-order histories in one process validate the inventory (model validation); the same inputs "
+                       "are also processed in 4 fresh interpreters with different PYTHONHASHSEED values and compared.",
         "technique": "CrossHair+z3 havoc lemmas: real compile()/convert() executed with symbolic stale state, result "
                      "compared with a fresh baseline",
         "level_text": "One-step havoc over the inventoried state is solver-decided for 3 inputs per entry point; the "
-                      "stale-memo-table lemma (recycled graph ids) is not encoded and fresh-process hash randomisation is "
-                      "outside the claim.",
+                      "stale-memo-table lemma (recycled graph ids) is not encoded; fresh-process determinism is only "
+                      "enumerated (4 interpreters, different hash seeds).",
         "level_note": "Trusted: CrossHair, z3; the inventory of surviving state (instance attributes reset in "
                       "compile()/convert(), class-level lists, param.indent, cli counter). The id()-keyed memo table is "
                       "only exercised by the concrete histories.",
@@ -200,18 +201,23 @@ PROPS = {
         "explanation": "Engine T per input: x ranges over the renumbered compiler output of families F1-F4; the real "
                        "decompiler's text is compiled by the real compiler and z3 decides, per routine, trace "
                        "equivalence of the SSB machine on x and on compile(decompile(x)) for all outcome sequences "
-                       "(Q1) with completeness threshold (Q2); routine tables compared directly. The structuring "
+                       "(Q1) with completeness threshold (Q2); routine tables compared directly. A second, "
+                       "compiler-independent leg reads the decompiled text's parse tree into the reference AST "
+                       "(spec/es_reader.py), gives it the reference semantics (spec/es_sem.py) and decides the same "
+                       "equivalence against x. The structuring "
                        "passes run on igraph and are not executed symbolically: the routine-set dimension is "
                        "enumerated. Inputs in the recorded known-finding classes are reported as KNOWN-FINDING. "
                        "Engine X: the decompiler's condition / switch / case / assignment printers against the reference "
                        "spelling and reading for symbolic integer parameters, and the label resolver on symbolic offsets.",
-        "technique": "z3 BMC trace equivalence between input routines and compile(decompile(input)), per "
-                     "enumerated input",
+        "technique": "z3 BMC trace equivalence between input routines and (a) compile(decompile(input)), (b) the "
+                     "reference semantics of the decompiled text, per enumerated input",
         "level_text": "Per input, equality of behaviour on all paths is solver-decided; the input space is a "
                       "generated family, so this is translation validation, not a proof over all routine sets.",
-        "level_note": "Trusted: spec/ssb_machine.py, z3, and the compiler for the second leg (validated against the "
-                      "reference semantics by C01). Known decompiler defects are listed by input class.",
-        "assumptions": ["routine-set dimension enumerated", "reading the text with the real compiler (checked by C01)"],
+        "level_note": "Trusted: spec/ssb_machine.py, spec/es_sem.py + spec/es_reader.py, z3, the ANTLR parser, and the "
+                      "compiler for leg (a) (validated against the reference semantics by C01). Known decompiler "
+                      "defects are listed by input class.",
+        "assumptions": ["routine-set dimension enumerated", "leg (a) reads the text with the real compiler (checked by C01)",
+                        "leg (b) is skipped for the SsbScript fallback text (a different language; leg (a) covers it)"],
     },
     "C06": {
         "x": ["harness.hC06"],
